@@ -23,10 +23,27 @@ package supervisor
 //	                      lock-step and compares callbacks and live set per step with the contract
 //	TestVerifC20Trace   - TV: seeded random longer histories (bursts of snapshots, panics), recorded
 //	                      as NDJSON for validation by TLC against Lifecycle_Trace
+//
+// Start-up histories (VERIF_STARTUP=1): the first burst of snapshots is already waiting at the
+// syncer channel when the supervisor is created and keeps coming while supervisor.MustNew runs
+// (the registry goroutine is started before the watchers are registered).  Three kinds of code
+// supplied by the user of the supervisor run during a start-up, and the harness uses them to
+// let the registry goroutine get on (bounded waits, never a condition on the code under test):
+//
+//	VerifC20Sys.Init      a system controller, registered before RawConfigTrafficController, whose
+//	                      Init takes until the registry has applied a snapshot or two: the traffic
+//	                      objects' watcher is created when snapshots have already been applied
+//	Category()            of an object of a recording kind, when called by the category filter
+//	                      inside ObjectRegistry.NewWatcher (once per caller of NewWatcher), takes
+//	                      until the registry has taken two more snapshots or stands still
+//	staged start          (package supervisor only) the statements of MustNew, re-done by the glue
+//	                      with such a wait between newObjectRegistry and NewWatcher: the schedule
+//	                      in which the registry goroutine gets ahead of the supervisor's watcher
 
 import (
 	"fmt"
 	"os"
+	"runtime"
 	"sort"
 	"strings"
 	"sync"
@@ -122,6 +139,80 @@ type c20World struct {
 	gate chan struct{}
 	slow time.Duration
 	held int
+	// start-up histories
+	opt        *option.Options
+	cls        cluster.Cluster
+	pushed     int64 // snapshots taken from w.ch by the registry (atomic)
+	pusherDone int32 // the pusher of the start-up burst has nothing left (atomic)
+	armed      int32 // the supervisor is being started with snapshots waiting: pause points are active (atomic)
+	paused     map[string]bool
+	pauses     []vx.M
+}
+
+// pausePoint is called from code that the supervisor calls while it starts (see the head of this
+// file).  It returns when the registry has taken two more snapshots from the syncer channel (so
+// one has been applied completely in between), when nothing is left to take, or when the taking
+// stands still for ~30 ms of this process running (the caller holds the registry's lock).
+// site "": called from Category(); only a call from inside ObjectRegistry.NewWatcher counts, once
+// per caller of NewWatcher.
+func (w *c20World) pausePoint(site string) {
+	if atomic.LoadInt32(&w.armed) == 0 {
+		return
+	}
+	if site == "" {
+		if site = c20NewWatcherCaller(); site == "" {
+			return
+		}
+		site = "NewWatcher<-" + site
+	}
+	w.mu.Lock()
+	if w.paused[site] {
+		w.mu.Unlock()
+		return
+	}
+	w.paused[site] = true
+	w.mu.Unlock()
+	p0 := atomic.LoadInt64(&w.pushed)
+	stagnated := false
+	for rounds := 0; rounds < 20 && !stagnated; rounds++ {
+		p1, b0 := atomic.LoadInt64(&w.pushed), atomic.LoadInt64(&c20Beats)
+		for atomic.LoadInt64(&c20Beats) < b0+6 && atomic.LoadInt64(&w.pushed) < p0+2 && atomic.LoadInt32(&w.pusherDone) == 0 {
+			time.Sleep(200 * time.Microsecond)
+		}
+		if atomic.LoadInt64(&w.pushed) >= p0+2 || atomic.LoadInt32(&w.pusherDone) != 0 {
+			break
+		}
+		stagnated = atomic.LoadInt64(&w.pushed) == p1
+	}
+	w.mu.Lock()
+	w.pauses = append(w.pauses, vx.M{"site": site, "before": int(p0), "taken": int(atomic.LoadInt64(&w.pushed) - p0), "stagnated": stagnated})
+	w.mu.Unlock()
+}
+
+// c20NewWatcherCaller: the function that called ObjectRegistry.NewWatcher, if that is on the stack.
+func c20NewWatcherCaller() string {
+	var pcs [32]uintptr
+	n := runtime.Callers(2, pcs[:])
+	frames := runtime.CallersFrames(pcs[:n])
+	found := false
+	for {
+		f, more := frames.Next()
+		if found {
+			return f.Function[strings.LastIndex(f.Function, "/")+1:]
+		}
+		found = strings.HasSuffix(f.Function, ".NewWatcher")
+		if !more {
+			return ""
+		}
+	}
+}
+
+// c20Cat is what Category() of the harness' kinds returns through.
+func c20Cat(c c20Category) c20Category {
+	if w := c20WorldOf(nil); w != nil {
+		w.pausePoint("")
+	}
+	return c
 }
 
 // hold is called by a callback (without w.mu) after it has been recorded.
@@ -311,7 +402,7 @@ func c20PrevKind(p c20Object) string {
 	return p.Kind()
 }
 
-func (o *c20K1) Category() c20Category    { return c20CatBiz }
+func (o *c20K1) Category() c20Category    { return c20Cat(c20CatBiz) }
 func (o *c20K1) Kind() string             { return "C20K1" }
 func (o *c20K1) DefaultSpec() interface{} { return &c20ObjSpec{} }
 func (o *c20K1) Status() *c20Status       { return &c20Status{} }
@@ -321,7 +412,7 @@ func (o *c20K1) Inherit(s *c20Spec, p c20Object) {
 }
 func (o *c20K1) Close() { c20Close(o, &o.c20Base, o.Kind()) }
 
-func (o *c20K2) Category() c20Category    { return c20CatBiz }
+func (o *c20K2) Category() c20Category    { return c20Cat(c20CatBiz) }
 func (o *c20K2) Kind() string             { return "C20K2" }
 func (o *c20K2) DefaultSpec() interface{} { return &c20ObjSpec{} }
 func (o *c20K2) Status() *c20Status       { return &c20Status{} }
@@ -331,7 +422,7 @@ func (o *c20K2) Inherit(s *c20Spec, p c20Object) {
 }
 func (o *c20K2) Close() { c20Close(o, &o.c20Base, o.Kind()) }
 
-func (o *c20SB) Category() c20Category    { return c20CatBiz }
+func (o *c20SB) Category() c20Category    { return c20Cat(c20CatBiz) }
 func (o *c20SB) Kind() string             { return "C20SB" }
 func (o *c20SB) DefaultSpec() interface{} { return &c20ObjSpec{} }
 func (o *c20SB) Status() *c20Status       { return &c20Status{} }
@@ -341,7 +432,7 @@ func (o *c20SB) Inherit(s *c20Spec, p c20Object) {
 }
 func (o *c20SB) Close() { c20Close(o, &o.c20Base, o.Kind()) }
 
-func (o *c20G1) Category() c20Category    { return c20CatGate }
+func (o *c20G1) Category() c20Category    { return c20Cat(c20CatGate) }
 func (o *c20G1) Kind() string             { return "C20G1" }
 func (o *c20G1) DefaultSpec() interface{} { return &c20ObjSpec{} }
 func (o *c20G1) Status() *c20Status       { return &c20Status{} }
@@ -353,7 +444,7 @@ func (o *c20G1) Inherit(s *c20Spec, p c20Object, _ context.MuxMapper) {
 }
 func (o *c20G1) Close() { c20Close(o, &o.c20Base, o.Kind()) }
 
-func (o *c20P1) Category() c20Category    { return c20CatPipe }
+func (o *c20P1) Category() c20Category    { return c20Cat(c20CatPipe) }
 func (o *c20P1) Kind() string             { return "C20P1" }
 func (o *c20P1) DefaultSpec() interface{} { return &c20ObjSpec{} }
 func (o *c20P1) Status() *c20Status       { return &c20Status{} }
@@ -365,7 +456,7 @@ func (o *c20P1) Inherit(s *c20Spec, p c20Object, _ context.MuxMapper) {
 }
 func (o *c20P1) Close() { c20Close(o, &o.c20Base, o.Kind()) }
 
-func (o *c20SG) Category() c20Category    { return c20CatGate }
+func (o *c20SG) Category() c20Category    { return c20Cat(c20CatGate) }
 func (o *c20SG) Kind() string             { return "C20SG" }
 func (o *c20SG) DefaultSpec() interface{} { return &c20ObjSpec{} }
 func (o *c20SG) Status() *c20Status       { return &c20Status{} }
@@ -376,6 +467,25 @@ func (o *c20SG) Inherit(s *c20Spec, p c20Object, _ context.MuxMapper) {
 	c20Create(o, &o.c20Base, o.Kind(), s, p, c20PrevKind(p))
 }
 func (o *c20SG) Close() { c20Close(o, &o.c20Base, o.Kind()) }
+
+// c20Sys is a system controller whose Init takes some time while the supervisor starts.  It is
+// registered by a variable initialiser, i.e. before the init() functions of the package, so that
+// in package rawconfigtrafficcontroller it is initialised before RawConfigTrafficController.
+type c20Sys struct{}
+
+func (o *c20Sys) Category() c20Category    { return c20CatSys }
+func (o *c20Sys) Kind() string             { return "VerifC20Sys" }
+func (o *c20Sys) DefaultSpec() interface{} { return &c20ObjSpec{} }
+func (o *c20Sys) Status() *c20Status       { return &c20Status{} }
+func (o *c20Sys) Init(s *c20Spec) {
+	if w := c20WorldOf(nil); w != nil {
+		w.pausePoint("system controller Init")
+	}
+}
+func (o *c20Sys) Inherit(s *c20Spec, p c20Object) {}
+func (o *c20Sys) Close()                          {}
+
+var _ = func() bool { c20Register(&c20Sys{}); return true }()
 
 func init() {
 	c20Register(&c20K1{})
@@ -389,7 +499,8 @@ func init() {
 // ---------------------------------------------------------------------------------------------
 // the world: a real supervisor fed by the harness
 
-func c20NewWorld(t testing.TB) *c20World {
+// c20PrepWorld prepares everything a supervisor needs; w.start creates the supervisor.
+func c20PrepWorld(t testing.TB) *c20World {
 	dir, err := os.MkdirTemp("", "c20-home-")
 	if err != nil {
 		t.Fatalf("c20: %v", err)
@@ -400,6 +511,8 @@ func c20NewWorld(t testing.TB) *c20World {
 		insts:      map[interface{}]*c20Inst{},
 		panicNames: map[string]bool{},
 		sentSeen:   map[string]int{},
+		paused:     map[string]bool{},
+		sentVer:    1,
 	}
 	w.sentCond = sync.NewCond(&w.mu)
 	syncer := clustertest.NewMockedSyncer()
@@ -410,13 +523,28 @@ func c20NewWorld(t testing.TB) *c20World {
 	cls.MockedSyncer = func(time.Duration) (cluster.Syncer, error) { return syncer, nil }
 	opt := &option.Options{Name: "c20", ClusterName: "c20"}
 	opt.AbsHomeDir, opt.AbsDataDir, opt.AbsLogDir, opt.AbsMemberDir, opt.AbsWALDir = dir, dir, dir, dir, dir
+	w.opt, w.cls = opt, cls
 	c20CurMu.Lock()
 	c20Current = w
 	c20CurMu.Unlock()
-	w.super = c20MustNew(opt, cls)
+	return w
+}
+
+// start creates the supervisor: supervisor.MustNew, or (staged, package supervisor only) its
+// statements with a pause between the start of the registry goroutine and NewWatcher.
+func (w *c20World) start(staged bool) {
+	if staged && c20MustNewStaged != nil {
+		w.super = c20MustNewStaged(w.opt, w.cls, func() { w.pausePoint("between newObjectRegistry and NewWatcher") })
+	} else {
+		w.super = c20MustNew(w.opt, w.cls)
+	}
 	c20Worlds.Store(w.super, w)
+}
+
+func c20NewWorld(t testing.TB) *c20World {
+	w := c20PrepWorld(t)
+	w.start(false)
 	// bring the sentinels to life (version 1)
-	w.sentVer = 1
 	if !w.pushAndWait(nil, c20Wait) {
 		w.broken = true // the sentinel objects were not initialised: reported as a stall by the callers
 	}
@@ -464,7 +592,10 @@ func (w *c20World) config(snap map[string]c20Obj) map[string]string {
 }
 
 // push delivers one snapshot to the object registry (returns when the registry has taken it).
-func (w *c20World) push(snap map[string]c20Obj) { w.ch <- w.config(snap) }
+func (w *c20World) push(snap map[string]c20Obj) {
+	w.ch <- w.config(snap)
+	atomic.AddInt64(&w.pushed, 1)
+}
 
 // waitSentinels waits until all sentinels have reached version `ver`.  It gives up (a stall) after
 // `d` - but only if the process was actually running during that time (the heartbeat goroutine
@@ -773,18 +904,35 @@ func TestVerifC20Replay(t *testing.T) {
 //
 // so that far more events are outstanding than a watcher's channel buffers.  A `gate` event
 // (coverage only) tells how many snapshots were taken while callbacks were waiting.
+//
+// VERIF_STARTUP=1: the first burst (5..8 snapshots) of every history is pushed while the
+// supervisor is being created (see the head of this file); `up` is logged when MustNew has
+// returned, `note` events (coverage only) tell what the pause points saw.  The burst is kept
+// below the buffer of a watcher's event channel: the supervisor's handler goroutine is started at
+// the very end of MustNew.
 func TestVerifC20Trace(t *testing.T) {
 	out := vx.NewWriter(t, "VERIF_OUT")
 	defer out.Close()
 	n, steps := vx.EnvInt("VERIF_N", 5), vx.EnvInt("VERIF_STEPS", 20)
 	kindChange := vx.EnvInt("VERIF_KINDCHANGE", 1) != 0
 	longBursts := vx.EnvInt("VERIF_LONGBURST", 0) != 0
+	startup := vx.EnvInt("VERIF_STARTUP", 0) != 0
 	names := []string{"a", "b", "c", "d"}[:vx.EnvInt("VERIF_NAMES", 3)]
 	rng := vx.Rand(int64(2000 + vx.EnvInt("VERIF_SALT", 0)))
 	kinds := c20TraceKinds
 	for h := 0; h < n; h++ {
-		w := c20NewWorld(t)
+		var w *c20World
+		if startup {
+			w = c20PrepWorld(t)
+		} else {
+			w = c20NewWorld(t)
+		}
 		out.Emit(vx.M{"ev": "reset", "h": h})
+		if !startup {
+			out.Emit(vx.M{"ev": "up"})
+		}
+		starting := startup
+		staged := startup && c20MustNewStaged != nil && h%4 != 3
 		if w.broken {
 			if w.starved {
 				out.Emit(vx.M{"ev": "starved"})
@@ -806,7 +954,7 @@ func TestVerifC20Trace(t *testing.T) {
 		// obligations with equal specs would make the validation search which Init is which)
 		used := map[string]int{}
 		newVer := func(nm string, v int) int {
-			if longBursts {
+			if longBursts || startup {
 				used[nm]++
 				return used[nm]
 			}
@@ -823,6 +971,9 @@ func TestVerifC20Trace(t *testing.T) {
 				default:
 					mode, burst = "gated", 14+rng.Intn(19)
 				}
+			}
+			if starting {
+				mode, burst = "startup", 5+rng.Intn(4)
 			}
 			long := mode != "plain"
 			var pan []string
@@ -923,6 +1074,24 @@ func TestVerifC20Trace(t *testing.T) {
 					break
 				}
 				out.Emit(vx.M{"ev": "gate", "mode": mode, "n": len(todo), "taken": int(taken), "held": held, "stagnated": stagnated})
+			case "startup":
+				starting = false
+				atomic.StoreInt32(&w.armed, 1)
+				done := make(chan struct{})
+				go func() { pushAll(); atomic.StoreInt32(&w.pusherDone, 1); close(done) }()
+				w.start(staged)
+				atomic.StoreInt32(&w.armed, 0)
+				out.Emit(vx.M{"ev": "up"})
+				w.mu.Lock()
+				for _, p := range w.pauses {
+					p["ev"], p["staged"], p["n"] = "note", staged, len(todo)
+					out.Emit(p)
+				}
+				w.mu.Unlock()
+				if !w.waitDone(done, c20Wait) {
+					stalled = true
+					break
+				}
 			case "sleepy":
 				w.setSlow(time.Duration(1+rng.Intn(3)) * time.Millisecond)
 				done := make(chan struct{})
